@@ -530,6 +530,11 @@ async fn login(h: &mut Harness, c: usize, name: &str, password: &str) {
             h.violate("C10", "only_valid_credentials", why, format!("login as {name} with an invalid credential succeeded (user id {})", identity.user_id));
             h.model.sessions[c].user = identity.user_id;
         }
+        (Err(_), true) if h.model.sessions[c].deleted_user.is_some() => {
+            // the connection belonged to a user that has been deleted: the server has dropped it from
+            // its client list; the statement does not promise that such a connection can be reused
+            h.stats.probe("login_on_connection_of_deleted_user_refused");
+        }
         (Err(e), true) => h.violate("C10", "valid_credentials_accepted", "login_refused", format!("login as {name} with the current password failed: {e:?}")),
         (Err(_), false) => {
             h.stats.probe("invalid_login_refused");
@@ -653,6 +658,9 @@ async fn login_pat(h: &mut Harness, c: usize, token_ref: usize) {
             h.violate("C10", "only_valid_credentials", why, format!("login with an invalid personal access token ({why}) succeeded as user {}", identity.user_id));
             h.model.sessions[c].user = identity.user_id;
         }
+        (Err(_), Some((true, _, _))) if h.model.sessions[c].deleted_user.is_some() => {
+            h.stats.probe("login_on_connection_of_deleted_user_refused");
+        }
         (Err(e), Some((true, _, uid))) => h.violate("C10", "valid_credentials_accepted", "token_refused", format!("login with a valid token of user {uid} failed: {e:?}")),
         (Err(_), Some((false, why, _))) => {
             h.stats.probe("invalid_token_refused");
@@ -685,17 +693,8 @@ pub async fn after_heartbeat_verification(h: &mut Harness) {
         h.stats.probe("client_evicted_by_heartbeat");
         if let Some(id) = h.model.sessions[c].client_id {
             crate::harness_grp::forget_client(h, id);
-        } else {
-            h.rotation.clear();
-            // unknown client id: membership checks of this run are no longer decidable
-            for s in h.model.streams.values_mut() {
-                for t in s.topics.values_mut() {
-                    for g in t.groups.values_mut() {
-                        g.members.clear();
-                    }
-                }
-            }
         }
+        // a connection whose id was never learned has joined no group: nothing to forget
         // the server closes nothing, the session is stale: the model treats the connection as gone
         h.clients[c] = None;
         h.model.sessions[c] = MSession::default();
